@@ -68,7 +68,11 @@ def classify(ctx, harnesses, results):
         if h.expect == "proved":
             if v == "PROVED":
                 continue
-            if v == "REFUTED":
+            own = [f for f in (r.get("failed") or []) if f["id"].startswith(("harness.", "verif_", "ref_")) and ".assertion." not in f["id"]]
+            if v == "REFUTED" and own:
+                errors.append(r)
+                print("ERROR property=%s harness=%s: cbmc check fails inside the harness' own code (%s) -- harness bug, not a verdict" % (pid, h.name, own[0]["text"]))
+            elif v == "REFUTED":
                 rp = confirm(ctx, h, r)
                 r["replay"] = {k: rp.get(k) for k in ("rc", "out", "dir", "confirmed", "note")}
                 if rp["confirmed"]:
